@@ -128,6 +128,6 @@ MANIFEST = {
             "once drained; redo replays conn.In and keepSafe; drain progress; unspool gate. Tie: real destination with spool=true against a scripted "
             "loopback endpoint (unique lines, duplicates allowed), backlog accessor, relay event marks replayed through Model/Relay.v.",
     "note": "partial: the conn/keepSafe half of the model is tied to the code by the black-box acceptor only; liveness is a progress lemma plus an "
-            "observed drain, not a temporal theorem; a line that HandleData holds while getRedo runs is outside the model (the hand-over is atomic "
-            "there) — that race was not observed in any run. Trusted: Coq kernel+VM, hooks.",
+            "observed drain, not a temporal theorem. The model's atomic hand-over from conn.In to keepSafe is what the code does since the "
+            "repair 6f509d2 (getRedo waits for HandleData); before it, the check found lines lost in that window. Trusted: Coq kernel+VM, hooks.",
 }
